@@ -67,8 +67,13 @@ def reflexive_linked():
         'classes': [{'kl': 'N', 'name': 'Node', 'comp': 'C1', 'attrs': [A('Id', 'base', 'unique_id'), A('K2', 'base', 'string')],
                      'ids': [['Id'], ['Id', 'K2']]},
                     {'kl': 'E', 'name': 'Edge', 'comp': 'C1', 'attrs': [A('From_Id', 'ref'), A('To_Id', 'ref'), A('To_K2', 'ref')],
-                     'ids': [['From_Id', 'To_Id']]}],
-        'rels': [{'k': 'linked', 'num': 7, 'comp': 'C1', 'one': 'N', 'oth': 'N', 'link': 'E', 'om': 1, 'oc': 1, 'oph': 'source',
+                     'ids': [['From_Id', 'To_Id']]},
+                    # a supertype with a single subtype
+                    {'kl': 'P', 'name': 'Parent', 'comp': 'C1', 'attrs': [A('Id', 'base', 'unique_id'), A('Tag', 'base', 'string')],
+                     'ids': [['Id']]},
+                    {'kl': 'K', 'name': 'Kid', 'comp': 'C1', 'attrs': [A('Id', 'ref'), A('Age', 'base', 'integer')], 'ids': [['Id']]}],
+        'rels': [{'k': 'subsup', 'num': 9, 'comp': 'C1', 'sup': 'P', 'subs': ['K'], 'keys': {'K': [['Id', 'Id']]}},
+                 {'k': 'linked', 'num': 7, 'comp': 'C1', 'one': 'N', 'oth': 'N', 'link': 'E', 'om': 1, 'oc': 1, 'oph': 'source',
                   'tm': 1, 'tc': 1, 'tph': 'target', 'okeys': [['From_Id', 'Id']], 'tkeys': [['To_Id', 'Id'], ['To_K2', 'K2']]}],
     }
 
